@@ -1,12 +1,12 @@
 """One-off triage helper (NOT run by the check): groups the violation classes C26 reports on the
 unchanged tree by root cause and writes known_findings.d/C26.json.
-Input: notes/c26/violations_*.json (dumps of .build/c26/violations.json from quick+thorough runs on the
+Input: notes/reports/C26-data/violations_*.json (dumps of .build/c26/violations.json from quick+thorough runs on the
 unchanged tree and on a scratch tree with notes/proposed-fixes/C26-integer-wrappers.patch applied)."""
 import json
 import os
 
 V = os.path.dirname(os.path.dirname(os.path.abspath(__file__)))
-N = os.path.join(V, "notes", "c26")
+N = os.path.join(V, "notes", "reports", "C26-data")
 
 
 def load(n):
